@@ -397,6 +397,19 @@ impl ListenerRegistry {
         }
     }
 
+    fn by_ssrc_in_section(
+        &self,
+        ssrc: u32,
+        packet_mid: Option<&str>,
+    ) -> Option<mpsc::Sender<(RtpPacket, SocketAddr)>> {
+        let tx = self.by_ssrc.get(&ssrc)?;
+        let other_section = self
+            .routes
+            .iter()
+            .any(|route| route.tx.same_channel(tx) && !Self::section_matches(route, packet_mid));
+        if other_section { None } else { Some(tx.clone()) }
+    }
+
     fn unique_by_pt(
         &self,
         pt: u8,
@@ -1143,14 +1156,16 @@ impl PacketReceiver for RtpTransport {
                     bind_ssrc = selected.is_some();
                 }
 
-                if selected.is_none() {
-                    selected = listeners.by_ssrc.get(&ssrc).cloned();
-                    bind_ssrc = false;
-                }
-
                 let packet_mid = mid_bytes
                     .as_ref()
                     .and_then(|mid| std::str::from_utf8(mid).ok());
+
+                if selected.is_none() {
+                    // An SSRC binding does not outrank the section the packet names:
+                    // a packet carrying another section's MID is not handed over.
+                    selected = listeners.by_ssrc_in_section(ssrc, packet_mid);
+                    bind_ssrc = false;
+                }
 
                 if selected.is_none() {
                     selected = listeners.unique_by_pt(pt, packet_mid);
